@@ -1285,3 +1285,85 @@ V("C03", "update_flushes_before_lowering_flag", "fire", "R03.u", (Z, """        
                     self_._batch_call_watchers()
             finally:
                 self_._BATCH_WATCH = BATCH_WATCH"""))
+
+# ----------------------------------------------------------------- round c, second half
+V("C13", "value_generator_reads_instance_copy_default", "fire", "R13.g", (Z, "                value = self_.cls.param[name].default", "                value = param_obj.default"))
+V("C13", "inspect_value_through_instance_copy", "fire", "R13.g", (Z, "                value = self_.cls.param[name]._inspect(cls_or_slf,None)", "                value = param_obj._inspect(cls_or_slf,None)"))
+V("C13", "benign_value_generator_named_class_param", "benign", None, (Z, "                value = self_.cls.param[name].default", "                cls_param = self_.cls.param[name]\n                value = cls_param.default"))
+V("C15", "serialize_value_returns_text_kept_on_value", "fire", "R15.i", (S, """        value = pobj.param.get_value_generator(pname)
+        return cls.dumps(pobj.param[pname].serialize(value))""", """        value = pobj.param.get_value_generator(pname)
+        text = getattr(value, '_param_json_text', None)
+        if text is not None:
+            return text
+        return cls.dumps(pobj.param[pname].serialize(value))"""))
+V("C15", "benign_serialize_value_two_steps", "benign", None, (S, """        value = pobj.param.get_value_generator(pname)
+        return cls.dumps(pobj.param[pname].serialize(value))""", """        value = pobj.param.get_value_generator(pname)
+        encoded = pobj.param[pname].serialize(value)
+        return cls.dumps(encoded)"""))
+V("C16", "nullable_keeps_sibling_keywords", "fire", "R16.d", (S, "    return {'anyOf': [ json_type, {'type': 'null'}] }", "    return dict(json_type, anyOf=[json_type, {'type': 'null'}])"))
+V("C16", "benign_nullable_type_list", "benign", None, (S, "    return {'anyOf': [ json_type, {'type': 'null'}] }", "    return {'anyOf': [json_type, {'type': ['null']}]}"))
+V("C16", "revalidation_skips_falsy_defaults", "fire", "R16.h", (Z, "        if type_change or slot_overridden and param.default is not None:", "        if type_change or slot_overridden and bool(param.default):"))
+V("C01", "revalidation_skips_falsy_defaults", "fire", "R01.k", (Z, "        if type_change or slot_overridden and param.default is not None:", "        if type_change or slot_overridden and bool(param.default):"))
+V("C01", "benign_revalidation_guard_distributed", "benign", None, (Z, "        if type_change or slot_overridden and param.default is not None:", "        if (type_change or slot_overridden) and (type_change or param.default is not None):"))
+V("C17", "method_owner_unwraps_one_partial_first", "fire", "R17.h", (Z, """    if not inspect.ismethod(method):
+        return None
+    if isinstance(method, partial):
+        method = method.func
+    return method.__self__""", """    if isinstance(method, partial):
+        method = method.func
+    if not inspect.ismethod(method):
+        return None
+    return method.__self__"""))
+V("C17", "benign_method_owner_unwraps_and_site_tests_ismethod", "benign", None, (Z, """    if not inspect.ismethod(method):
+        return None
+    if isinstance(method, partial):
+        method = method.func
+    return method.__self__""", """    while isinstance(method, partial):
+        method = method.func
+    if not inspect.ismethod(method):
+        return None
+    return method.__self__"""), (Z, "                        elif get_method_owner(fn) is watcher.inst:", "                        elif inspect.ismethod(fn) and get_method_owner(fn) is watcher.inst:"))
+V("C18", "trigger_reads_names_before_mutation", "fire", "R18.i", (P, """        old = dict(self._parameter.names) or list(self._parameter._objects)
+        yield
+        if trigger:
+            value = self._parameter.names or self._parameter._objects""", """        names = self._parameter.names
+        old = dict(names) or list(self._parameter._objects)
+        yield
+        if trigger:
+            value = names or self._parameter._objects"""))
+V("C18", "benign_trigger_aliases_parameter_only", "benign", None, (P, """        trigger = 'objects' in self._parameter.watchers and trigger
+        old = dict(self._parameter.names) or list(self._parameter._objects)
+        yield
+        if trigger:
+            value = self._parameter.names or self._parameter._objects
+            self._parameter._trigger_event('objects', old, value)""", """        parameter = self._parameter
+        trigger = 'objects' in parameter.watchers and trigger
+        old = dict(parameter.names) or list(parameter._objects)
+        yield
+        if trigger:
+            value = parameter.names or parameter._objects
+            parameter._trigger_event('objects', old, value)"""))
+V("C19", "benign_time_sampled_restores_read_time", "benign", None, (N, """        current_time = self.time_fn()
+        current_time += self.offset
+        difference = current_time % self.period
+        with self.time_fn as t:
+            t(current_time - difference - self.offset)
+            value = self.fn()
+        return value""", """        now = self.time_fn()
+        current_time = now + self.offset
+        difference = current_time % self.period
+        t = self.time_fn
+        t(current_time - difference - self.offset)
+        try:
+            value = self.fn()
+        finally:
+            t(now)
+        return value"""))
+V("C19", "time_sampled_restores_shifted_time", "fire", "R19.e", (N, """        with self.time_fn as t:
+            t(current_time - difference - self.offset)
+            value = self.fn()
+        return value""", """        t = self.time_fn
+        t(current_time - difference - self.offset)
+        value = self.fn()
+        t(current_time - self.offset)
+        return value"""))
